@@ -10,6 +10,14 @@ pub fn quiet_panics() {
     std::panic::set_hook(Box::new(|_| {}));
 }
 
+/// leave a note about the case that is about to run: if the code under test kills the whole process (stack overflow,
+/// abort), the driver finds the last note next to the trace and puts it into the replay file
+pub fn breadcrumb(v: &Value) {
+    if let Ok(p) = std::env::var("VERIF_CRUMB") {
+        let _ = std::fs::write(p, v.to_string());
+    }
+}
+
 pub enum Outcome<T> {
     Ok(T),
     Panic(String),
